@@ -281,7 +281,9 @@ func timeOfView(v string, adj bool) (time.Time, error) {
 		return time.Time{}, nil
 	}
 
-	layout := "2006010203"
+	// 15 is the 24-hour clock; "03" would be the 12-hour clock and reject
+	// every hour view from 13 to 23.
+	layout := "2006010215"
 	timePart := viewTimePart(v)
 
 	switch len(timePart) {
